@@ -37,7 +37,9 @@ var importExtra = func() {}
 
 var c01Rates = []float64{0, 0.001, 0.3, 0.5, 1, 2.5, 7, 10, 99.9, 1000, 12345.678}
 var c01Durs = []time.Duration{time.Millisecond, 10 * time.Millisecond, 500 * time.Millisecond, 999 * time.Millisecond,
-	time.Second, 1500 * time.Millisecond, 2718 * time.Millisecond, 10 * time.Second, 90 * time.Second, time.Hour, 2 * time.Second, 7300 * time.Millisecond}
+	time.Second, 1500 * time.Millisecond, 2718 * time.Millisecond, 10 * time.Second, 90 * time.Second, time.Hour, 2 * time.Second, 7300 * time.Millisecond,
+	// durations with a fraction of a millisecond (validation asks for 1 ms at least, nothing more)
+	1500 * time.Microsecond, 2500 * time.Microsecond, time.Second + 500*time.Microsecond, 7300*time.Millisecond + 250*time.Microsecond}
 
 func c01GenProfile(w *simrt.Stream) ref.Profile {
 	for {
